@@ -4,6 +4,9 @@
    cfg  <last> <locals> <remotes>                 the walk alone (diffConfigEntries)
    racl <kind> <last> <remoteIndex> <locals> <remotes>   one real replicateACLType round
    rcfg <last> <remoteIndex> <locals> <remotes>          one real replicateConfig round
+   sacl <kind> <last> <remoteIndex> <locals> <remotes id;mod;hash;val;size;create> <overrides>
+        one real round whose batch read is answered stale: override = id;mod;hash;val;size (an
+        older version) or id;- (not returned); kind policy = guarded, token = no guard
    nbatch <rows id;name …> <upserts id;name …>           one upsert batch against the unique name index
 
    ACL item:    id;mod;hash;val;size      config item: kind;name;mod;hash;val
@@ -25,6 +28,19 @@ def parseCfgItem (tok : String) : Option (Item CKey Nat) :=
   | [k, n, m, h, v] => do
       let kind ← decB k; let name ← decB n; let mod ← m.toNat?; let hash ← h.toNat?; let val ← v.toNat?
       pure ⟨(kind, name), mod, hash, val, 1⟩
+  | _ => none
+
+def parseAclItemC (tok : String) : Option (Item Bytes Bytes × Nat) :=
+  match tok.splitOn ";" with
+  | [i, m, h, v, z, c] => do
+      let it ← parseAclItem (";".intercalate [i, m, h, v, z]); let cre ← c.toNat?
+      pure (it, cre)
+  | _ => none
+
+def parseOverride (tok : String) : Option (Bytes × Option (Item Bytes Bytes)) :=
+  match tok.splitOn ";" with
+  | [i, "-"] => do let id ← decB i; pure (id, none)
+  | [i, _, _, _, _] => do let id ← decB i; let it ← parseAclItem tok; pure (id, some it)
   | _ => none
 
 def parseNRow (tok : String) : Option NRow :=
@@ -79,6 +95,22 @@ def step (_ : Unit) (toks : List String) : Unit × String :=
     match last.toNat?, ridx.toNat?, (decList ls).mapM parseCfgItem, (decList rs).mapM parseCfgItem with
     | some last, some ridx, some l, some r => ((), roundStr cfgRnd cfgId last ridx l r)
     | _, _, _, _ => ((), "bad-op")
+  | ["sacl", kind, last, ridx, ls, rs, ovs] =>
+    match last.toNat?, ridx.toNat?, (decList ls).mapM parseAclItem, (decList rs).mapM parseAclItemC,
+          (decList ovs).mapM parseOverride with
+    | some last, some ridx, some l, some rc, some ov =>
+      let r := rc.map (·.1)
+      let cre : Bytes → Nat := fun k => match rc.find? (fun p => p.1.id = k) with
+        | some p => p.2
+        | none => 0
+      let guard := kind == "policy"
+      let ops := roundOpsStale aclRnd guard ov cre last ridx l r
+      let fin := finalStr ((roundFinalStale aclRnd guard ov cre last ridx l r).map fun x => (x.id, x.val))
+      let ret := match roundRetStale aclRnd guard ov cre last ridx l r with
+        | some n => toString n
+        | none => "error"
+      ((), s!"ret={ret} w={encList (ops.map (opStr id))} final={fin}")
+    | _, _, _, _, _ => ((), "bad-op")
   | ["nbatch", rows, ups] =>
     match (decList rows).mapM parseNRow, (decList ups).mapM parseNRow with
     | some s, some xs =>
